@@ -54,7 +54,7 @@ def _tset_stub(it, log):
     return SymObj("tset", Val.ref(z3.IntVal(it.ctx.new_id())), attrs={"transform_for": s}), variants
 
 
-@unit("StackedTransforms", ["C05", "C11", "C02"], [TR + ":StackedTransforms.__init__", TR + ":StackedTransforms.push", TR + ":StackedTransforms.pop",
+@unit("StackedTransforms", ["C05", "C11", "C02", "C13", "C04", "C12", "C16"], [TR + ":StackedTransforms.__init__", TR + ":StackedTransforms.push", TR + ":StackedTransforms.pop",
                                      TR + ":StackedTransforms.get"], replay=_replay_file("c05_history.py"))
 def u_stack(c):
     """Abstract view: a multiset Act of pushed capture tuples.  well_formed: instrument_count = |Act| and
@@ -122,7 +122,7 @@ def u_stack(c):
         c.prove("get/frame", stk.fields["instrument_count"] is ic and stk.fields["captures"] is cnt)
 
 
-@unit("SyncedStackedTransforms", ["C05", "C14", "C02", "C06"], [TR + ":SyncedStackedTransforms.push", TR + ":SyncedStackedTransforms.pop",
+@unit("SyncedStackedTransforms", ["C05", "C14", "C02", "C06", "C13"], [TR + ":SyncedStackedTransforms.push", TR + ":SyncedStackedTransforms.pop",
                                                  TR + ":SyncedStackedTransforms._apply", TR + ":StackedTransforms.get"],
       assumed=["codefind.code_registry.update_cache_entry is used through a ghost event (its effect on resolution is specified under C14)"],
       replay=_replay_file("c05_history.py"))
@@ -437,13 +437,15 @@ def _giving_hooks(it):
 
 
 def _observer(it, name, events):
+    """An rx observer stub; attrs["is_stopped"] (a scenario may flip it) is its is_stopped flag: a stage that finished early (take(1),
+    first()) -- telling it more is harmless, telling the OTHER observers less is not."""
     def on_next(it_, a, k):
         events.append((name, "next", a[0]))
 
     def on_completed(it_, a, k):
         events.append((name, "completed"))
 
-    return SymObj(name, Val.ref(z3.IntVal(it.ctx.new_id())), attrs={"on_next": SummaryFn("on_next", on_next), "on_completed": SummaryFn("on_completed", on_completed)})
+    return SymObj(name, Val.ref(z3.IntVal(it.ctx.new_id())), attrs={"on_next": SummaryFn("on_next", on_next), "on_completed": SummaryFn("on_completed", on_completed), "is_stopped": False})
 
 
 @unit("Probe.lifecycle", ["C17", "C05"], [P + ":Probe.__init__", P + ":Probe._enter", P + ":Probe._exit", P + ":Probe._emit", P + ":Probe._make_rule",
@@ -509,6 +511,14 @@ def u_probe_lifecycle(c):
     st, r = run(it, it.getattr(prb, "_emit"), [d1])
     c.prove("emit2/each-observer-once-in-order", [e[:2] for e in events] == [("o1", "next"), ("o2", "next")])
     del events[:]
+    # --- a stage that finished early (take(1), first()) costs the stages attached after it nothing
+    o1.attrs["is_stopped"] = True
+    st, r = run(it, it.getattr(prb, "_emit"), [d1])
+    c.prove("emit3/observer-after-a-stopped-one-still-told", st == "ok" and [e[:2] for e in events if e[0] != "o1"] == [("o2", "next")], note=str([e[:2] for e in events]))
+    del events[:]
+    o1.attrs["is_stopped"] = False
+    if o1 not in prb.fields["_observers"]:  # a stopped stage may be forgotten; the later clauses count its completion
+        prb.fields["_observers"].insert(0, o1)
     # --- second activation attempt
     snap = (var.value, set(gp), list(prb.fields["_observers"]))
     st, r = run(it, it.getattr(prb, "__enter__"), [])
